@@ -1310,3 +1310,229 @@ def run(ctx: Context):
         for (t, w) in find_path_avoiding(acfg, lambda x: x.kind == "exit", gate_node=lambda m: m in wn, skip_exc_edges=True):
             r.violation(ad, ad.loc(), "MutableShareFile.add_lease can return normally without having written the lease "
                         "(path: %s)" % w.brief(), w)
+
+    # -- 10. container growth: the extra-lease block is moved intact --------------------------------------------------
+    with ctx.rule("C25.10", "R6/R1", "leases survive container growth: MutableShareFile._change_container_size reads the whole "
+                  "extra-lease block (count field + num_extra_leases records) at the old extra-lease offset before it modifies the "
+                  "file, writes those bytes where it points the header to, and nothing that may overlap the new block is written "
+                  "after the copy (the old and new blocks overlap whenever the container grows by less than the block size)",
+                  expected=3) as r:
+        cs = idx.func(MSF + "._change_container_size")
+        fp = first_positional_params(cs)[0]
+        cfg = cs.cfg()
+        fnm = FlowNorm(cs)
+        rn_ = idx.func(MSF + "._read_num_extra_leases")
+        un = [c for c in calls_in_func(rn_, "unpack") if call_name(c) == "struct.unpack"]
+        cfmt = _fold(fo, un[0].args[0], rn_.module, rn_.cls) if len(un) == 1 else None
+        if not isinstance(cfmt, str):
+            raise AnchorVanished("_read_num_extra_leases: count format not found")
+        CW = _struct.calcsize(cfmt)
+        NEUTRAL = ("flush", "tell", "fileno")
+        HEADER_WRITERS = ("_write_extra_lease_offset", "_write_data_length")
+
+        def file_calls(n):
+            return [c for c in node_calls(n) if (isinstance(c.func, ast.Attribute) and attr_path(c.func.value) == fp)
+                    or any(attr_path(a) == fp for a in c.args) or any(attr_path(k.value) == fp for k in c.keywords)]
+
+        def direct(n, kinds):
+            return [c for c in file_calls(n) if isinstance(c.func, ast.Attribute) and attr_path(c.func.value) == fp and c.func.attr in kinds]
+
+        def handed(n):
+            """self.<helper>(f, ..) calls that are given the file"""
+            return [c for c in file_calls(n) if not (isinstance(c.func, ast.Attribute) and attr_path(c.func.value) == fp)]
+
+        def mutates(n):
+            return bool(direct(n, ("write", "writelines", "truncate"))) or any(not call_tail(c).startswith("_read") for c in handed(n))
+
+        # file position on entry to each node: id of the fp.seek(E) node that set it and was not disturbed since, else -1
+        def tr_pos(n, lab, nxt, st):
+            if lab == "exc":
+                return None
+            fc = file_calls(n)
+            if not fc or all(c in direct(n, NEUTRAL) for c in fc):
+                return st
+            sk = [c for c in direct(n, ("seek",)) if len(c.args) == 1 and not c.keywords]
+            if len(sk) == 1:
+                inner = {id(x) for x in ast.walk(sk[0].args[0])}
+                if all(c is sk[0] or id(c) in inner for c in fc):
+                    return n.id
+            return -1
+        pvis, ppar = explore(cfg, -1, tr_pos)
+        r.count(len(pvis))
+
+        def positions(n):
+            """set of polynomials (None = unknown) the file may be positioned at on entry to n"""
+            out = set()
+            for (nid, st) in pvis:
+                if nid == n.id:
+                    if st < 0:
+                        out.add(None)
+                    else:
+                        sn = cfg.nodes[st]
+                        try:
+                            out.add(fnm.at(sn).poly(direct(sn, ("seek",))[0].args[0]))
+                        except Exception:
+                            out.add(None)
+            return out
+
+        def show(ps):
+            return ", ".join(sorted("an unknown position" if p is None else str(p) for p in ps)) or "nowhere"
+
+        # the copy: a write of bytes that an fp.read(..) of this function produced
+        copies, foreign = [], []
+        for n in cfg.nodes:
+            for c in direct(n, ("write", "writelines", "truncate")):
+                a = c.args[0] if (c.func.attr == "write" and len(c.args) == 1 and not c.keywords) else None
+                dn, v = def_of(fnm, n, a) if a is not None else (None, None)
+                if isinstance(v, ast.Call) and isinstance(v.func, ast.Attribute) and v.func.attr == "read" and attr_path(v.func.value) == fp:
+                    rnode = dn if dn is not None else n
+                    copies.append((n, c, rnode, v))
+                else:
+                    foreign.append((n, c))
+        if not copies:
+            raise AnchorVanished("_change_container_size: no %s.write(<bytes read from %s>) - the extra-lease block is not copied" % (fp, fp))
+        upd = [(n, c) for n in cfg.nodes for c in self_calls(n, "_write_extra_lease_offset") if len(c.args) == 2 and attr_path(c.args[0]) == fp]
+        if not upd:
+            raise AnchorVanished("_change_container_size: no self._write_extra_lease_offset(%s, ..)" % fp)
+        for (U, uc) in upd:
+            r.site(cs, uc, "header update")
+        OLD = P("self._read_extra_lease_offset(%s)" % fp)
+        SIZE = P("%d + self._read_num_extra_leases(%s) * self.LEASE_SIZE" % (CW, fp))
+        muts = [n for n in cfg.nodes if mutates(n)]
+        for (W, wc, Rn, rc) in copies:
+            r.site(cs, rc, "block read")
+            r.site(cs, wc, "block copy")
+            # (a) the block that is saved is the whole block, taken from where the header says it is
+            multi = len(file_calls(Rn)) != 1 or len(file_calls(W)) != 1
+            r.require(not multi, cs, cs.loc(rc), "the block read / copy is combined with other file accesses in one statement")
+            if multi:
+                continue
+            try:
+                got = str(fnm.at(Rn).poly(rc.args[0])) if len(rc.args) == 1 and not rc.keywords else "?"
+            except Exception:
+                got = "?"
+            r.require(got == SIZE, cs, cs.loc(rc), "the saved extra-lease block is %s bytes long, not the count field plus every record "
+                      "(%d + num_extra_leases * LEASE_SIZE): the leases beyond it do not survive the move" % (
+                          src(cs, rc.args[0]) if rc.args else "all remaining", CW))
+            rp = positions(Rn)
+            r.require(bool(rp) and all(q is not None and str(q) == OLD for q in rp), cs, cs.loc(rc),
+                      "the extra-lease block is read at %s, not at the extra-lease offset recorded in the header "
+                      "(seek(self._read_extra_lease_offset(%s)) immediately before): other bytes are moved in place of the leases" % (show(rp), fp))
+            # (b) ... before anything in the file is modified
+            for (t, w) in find_path_avoiding(cfg, lambda x: x in muts, gate_node=lambda m: m is Rn, skip_exc_edges=True):
+                r.violation(cs, cs.loc(t.ast), "_change_container_size modifies the file (%s) before the extra-lease block was read: "
+                            "the leases that are moved are no longer the stored ones (path: %s)" % (src(cs, t.ast), w.brief()), w)
+            # (c) the header points to where the copy went
+            wp = positions(W)
+            for (U, uc) in upd:
+                try:
+                    tgt = fnm.at(U).poly(uc.args[1])
+                except Exception:
+                    tgt = None
+                r.require(tgt is not None and wp == {tgt}, cs, cs.loc(uc), "the header's extra-lease offset is set to %s but the lease block "
+                          "was written at %s: every lease beyond the fourth is looked for in the wrong place" % (src(cs, uc.args[1]), show(wp)))
+            # (d) nothing that may overlap the new block is written after the copy
+            avis, apar = explore(cfg, 0, lambda a_, l_, b_, s_: None if l_ == "exc" else 0, start=W)
+            after = {nid for (nid, _s) in avis if nid != W.id}
+            newp = next(iter(wp)) if len(wp) == 1 and None not in wp else None
+            for (Z, zc) in foreign:
+                if Z.id not in after:
+                    continue
+                zp = positions(Z)
+                ok = False
+                if newp is not None and len(zp) == 1 and None not in zp and zc.func.attr == "write" and len(zc.args) == 1:
+                    # provably disjoint: at position p at most (new position - p) bytes are written
+                    _d, zv = def_of(fnm, Z, zc.args[0])
+                    if isinstance(zv, ast.BinOp) and isinstance(zv.op, ast.Mult):
+                        sides = [zv.left, zv.right]
+                        lit = [s_ for s_ in sides if isinstance(s_, ast.Constant) and isinstance(s_.value, bytes) and len(s_.value) == 1]
+                        cnt = [s_ for s_ in sides if s_ not in lit]
+                        if len(lit) == 1 and len(cnt) == 1:
+                            cv = cnt[0]
+                            if isinstance(cv, ast.Name):
+                                _d2, cv = def_of(fnm, Z, cv)
+                            room = newp - next(iter(zp))
+                            bounds = cv.args if isinstance(cv, ast.Call) and call_name(cv) == "min" and not cv.keywords else [cv] if cv is not None else []
+                            for b_ in bounds:
+                                try:
+                                    if fnm.at(Z).poly(b_) == room:
+                                        ok = True
+                                except Exception:
+                                    pass
+                if not ok:
+                    w = witness(cfg, apar, (Z.id, 0))
+                    r.violation(cs, cs.loc(zc), "_change_container_size writes %s at %s after the extra-lease block was copied to its new "
+                                "place: when the container grows by less than the block size the two areas overlap and this write "
+                                "destroys the start of the copy (the extra-lease count and the first records) - every lease beyond "
+                                "the fourth is lost (path: %s)" % (src(cs, zc.args[0] if zc.args else zc), show(zp), w.brief()), w)
+            for Z in cfg.nodes:
+                if Z.id in after:
+                    for c in handed(Z):
+                        if call_tail(c).startswith("_read") or (call_name(c).startswith("self.") and call_tail(c) in HEADER_WRITERS):
+                            continue
+                        r.violation(cs, cs.loc(c), "_change_container_size hands the file to %s after the extra-lease block was copied: "
+                                    "it may overwrite the copy" % src(cs, c), witness(cfg, apar, (Z.id, 0)))
+        # (e) a call that modified the file completes only with the block copied and the header pointing at it
+        cn = {W.id for (W, _c, _r, _v) in copies}
+        un_ = {U.id for (U, _c) in upd}
+
+        def tr_done(n, lab, nxt, st):
+            if lab == "exc":
+                return None
+            m_, c_, u_ = st
+            return (m_ or n in muts, c_ or n.id in cn, u_ or n.id in un_)
+        dvis, dpar = explore(cfg, (False, False, False), tr_done)
+        r.count(len(dvis))
+        for (nid, st) in sorted(dvis):
+            if cfg.nodes[nid].kind == "exit" and st[0] and not (st[1] and st[2]):
+                w = witness(cfg, dpar, (nid, st))
+                r.violation(cs, cs.loc(), "_change_container_size can return after modifying the file without %s: the extra leases are "
+                            "lost (path: %s)" % ("having copied the extra-lease block" if not st[1] else "pointing the header at the copy", w.brief()), w)
+                break
+
+    # -- 11. a known renew secret is never reported as unknown --------------------------------------------------------
+    with ctx.rule("C25.11", "R1/R3", "renew_lease (both containers) raises (IndexError: no such lease) only when no lease matched the "
+                  "renew secret: once lease.is_renew_secret(renew_secret) held - whether or not the expiry had to move - no raise "
+                  "statement is reachable, otherwise add_or_renew_lease takes the secret for unknown and adds a duplicate", expected=2) as r:
+        for (cq, kind) in CONTAINERS:
+            fn = idx.func(cq + ".renew_lease")
+            sec = first_positional_params(fn)[0]
+            cfg = fn.cfg()
+            fnm = FlowNorm(fn)
+            medges = [(n, lab) for n in cfg.nodes for (d, lab) in cfg.succ[n.id] if isinstance(lab, tuple)
+                      and (fnm.edge_fact(n, lab) or (None, ""))[0] == "truth"
+                      and re.match(r"^\w+\.is_renew_secret\(%s\)$" % re.escape(sec), str(fnm.edge_fact(n, lab)[1]))]
+            if not medges:
+                raise AnchorVanished("%s: no test of <lease>.is_renew_secret(%s)" % (short(fn), sec))
+            r.site(fn, medges[0][0].ast, "secret match")
+            mset = {(n.id, lab[0]) for (n, lab) in medges}
+
+            def tr11(n, lab, nxt, st, mset=mset):
+                matched, flags = st
+                if lab == "exc" and not (n.kind == "stmt" and isinstance(n.ast, ast.Raise)):
+                    return None          # I/O failures are not the question; explicit raise statements are
+                if n.kind == "test" and isinstance(n.ast, ast.Name) and isinstance(lab, tuple):
+                    known = dict(flags).get(n.ast.id)
+                    if known is not None and known != (lab[0] == "T"):
+                        return None      # boolean flag with a known value: infeasible branch
+                if n.kind == "stmt" and isinstance(n.ast, ast.Assign) and len(n.ast.targets) == 1 and isinstance(n.ast.targets[0], ast.Name):
+                    v = n.ast.value
+                    fl = dict(flags)
+                    if isinstance(v, ast.Constant) and isinstance(v.value, bool):
+                        fl[n.ast.targets[0].id] = v.value
+                    else:
+                        fl.pop(n.ast.targets[0].id, None)
+                    flags = tuple(sorted(fl.items()))
+                if isinstance(lab, tuple) and (n.id, lab[0]) in mset:
+                    matched = True
+                return (matched, flags)
+            vis, par = explore(cfg, (False, ()), tr11)
+            r.count(len(vis))
+            for (nid, st) in sorted(vis, key=lambda x: (x[0], str(x[1]))):
+                m = cfg.nodes[nid]
+                if st[0] and m.kind == "stmt" and isinstance(m.ast, ast.Raise):
+                    w = witness(cfg, par, (nid, st))
+                    r.violation(fn, fn.loc(m.ast), "%s can reach %s after a lease matched the renew secret (e.g. when its expiry does not "
+                                "need to move): a renewal with a known secret is reported as 'no such lease', and add_or_renew_lease "
+                                "answers that by adding a duplicate lease (path: %s)" % (short(fn), src(fn, m.ast), w.brief()), w)
+                    break
